@@ -39,6 +39,9 @@ CHANNELS = {
     # the sandbox's own helpers are visible to page code: what they hand out must not let a page break the next one
     "shared_env_metatable": ("local e = _lua_reset_env and _lua_reset_env() if type(e) == 'table' then pcall(setmetatable, e, {__metatable = false, __index = function() return 'L' end}) end",
                              "tostring(rawget(_G, 'leak_never_set'))"),
+    # a helper module whose initialisation raised once (because of something the requiring page set) loads normally later
+    "failed_require": ("picky_refuse = true pcall(require, 'Module:picky')",
+                       "(function() picky_refuse = nil local ok, r = pcall(require, 'Module:picky') return ok and tostring(r.v) or ('load failed: ' .. tostring(r)) end)()"),
     "shared_env_field": ("local e = _lua_reset_env and _lua_reset_env() if type(e) == 'table' then e.leak_e = 'L' end", "tostring(rawget(_G, 'leak_e'))"),
 }
 
@@ -145,6 +148,7 @@ def make_db(d):
     ctx.add_page("Module:cnt", 828, COUNT_MOD, model="Scribunto")
     ctx.add_page("Module:gstate", 828, GSTATE_MOD, model="Scribunto")
     ctx.add_page("Module:data", 828, "return {a = 1}", model="Scribunto")
+    ctx.add_page("Module:picky", 828, "if picky_refuse then error('refused') end\nreturn {v = 'P'}", model="Scribunto")
     ctx.add_page("Module:_sandbox_phase1", 828, "", model="Scribunto")
     ctx.db_conn.commit()
     ctx.close_db_conn()
@@ -250,9 +254,13 @@ def in_child(fn, *a):
     return val
 
 
-def expected_channel_output():
+CLEAN = {"failed_require": "P"}
+
+
+def expected_channel_output(name=None):
     # probe before, mutate, probe after inside one page: each invocation starts from a pristine environment
-    return "nil" + "m" + "nil"
+    c = CLEAN.get(name, "nil")
+    return c + "m" + c
 
 
 def work(payload, skip, report):
@@ -294,8 +302,8 @@ def work(payload, skip, report):
                         oracle = "independent_of_other_contexts:" + [e[1] for e in hist[:-1] if e[0] == "other_ctx"][0]
                     acc.violation(oracle, case, {k: str(v[0])[:200] for k, v in diff.items()}, {k: str(v[1])[:200] for k, v in diff.items()})
                 if len(hist) == 1 and last[2] == "expand":
-                    if last[1].startswith("chan_") and got["result"] != expected_channel_output():
-                        acc.violation("lua_invocations_isolated_within_page:" + last[1][5:], case, got["result"], expected_channel_output())
+                    if last[1].startswith("chan_") and got["result"] != expected_channel_output(last[1][5:]):
+                        acc.violation("lua_invocations_isolated_within_page:" + last[1][5:], case, got["result"], expected_channel_output(last[1][5:]))
                     if last[1] == "reqglobal" and got["result"] != "1/1 1/1":
                         acc.violation("required_module_globals_reset", case, got["result"], "1/1 1/1")
                     if last[1] == "count" and got["result"] != "1":
